@@ -1481,8 +1481,13 @@ class FortranFile:
             # Test for scope end
             if file_ast.end_scope_regex is not None:
                 match = FRegex.END_WORD.match(line_no_comment)
+                closes_do = file_ast.current_scope.get_type() == DO_TYPE_ID
                 # Handle end statement
                 if self.parse_end_scope_word(line_no_comment, line_no, file_ast, match):
+                    # The label of a DO construct that ends with END DO is no
+                    # longer pending
+                    if closes_do and block_id_stack:
+                        block_id_stack.pop()
                     continue
                 # Look for old-style end of DO loops with line labels
                 if self.parse_do_fixed_format(
@@ -1673,8 +1678,8 @@ class FortranFile:
             elif obj_type == "do":
                 counters["do"] += 1
                 name = f"#DO{counters['do']}"
-                if obj_info != "":
-                    block_id_stack.append(obj_info)
+                # One entry per DO construct, empty for a DO without a label
+                block_id_stack.append(obj_info)
                 new_do = Do(file_ast, line_no, name)
                 file_ast.add_scope(new_do, FRegex.END_DO, req_container=True)
                 log.debug("%s !!! DO - Ln:%d", line, line_no)
